@@ -59,13 +59,18 @@ func scalarPattern(r *rand.Rand, k int) (s [32]byte) {
 }
 
 type c11 struct {
-	m *mon.M
+	m    *mon.M
+	dcls string // coarse class for m.Distinct when cls carries per-case detail
 }
 
 // judge runs every entry point on (scalar, u) and compares with the RFC 7748
 // reference; cls names the input class for keys and counters.
 func (c *c11) judge(s, u [32]byte, cls, desc string) {
 	m := c.m
+	dc, near := cls, strings.HasPrefix(cls, "near-special")
+	if c.dcls != "" {
+		dc = c.dcls
+	}
 	want := x25519big.X25519(&s, &u)
 	zero := x25519big.IsZero(&want)
 	wit := map[string]any{"scalar": mon.FullHex(s[:]), "u": mon.FullHex(u[:]), "class": cls, "u_desc": desc, "rfc7748": mon.FullHex(want[:])}
@@ -87,7 +92,7 @@ func (c *c11) judge(s, u [32]byte, cls, desc string) {
 	sc, pt := append([]byte{}, s[:]...), append([]byte{}, u[:]...)
 	got, err := curve25519.X25519(sc, pt)
 	m.Eval()
-	m.Distinct("X25519 " + cls)
+	m.Distinct("X25519 " + dc)
 	switch {
 	case zero && err == nil:
 		wit["got"] = mon.FullHex(got)
@@ -97,7 +102,11 @@ func (c *c11) judge(s, u [32]byte, cls, desc string) {
 		m.Violation("x25519-error-for-nonzero-output:"+cls, wit)
 	case !zero && !bytes.Equal(got, want[:]):
 		wit["got"] = mon.FullHex(got)
-		m.Violation("x25519-wrong-value:"+cls, wit)
+		if near {
+			m.Violation("x25519-differs-from-ref:"+cls, wit)
+		} else {
+			m.Violation("x25519-wrong-value:"+cls, wit)
+		}
 	case zero:
 		m.Count("error_for_zero_output_observed", 1)
 	}
@@ -112,10 +121,13 @@ func (c *c11) judge(s, u [32]byte, cls, desc string) {
 	s2, u2 := s, u
 	curve25519.ScalarMult(&dstv, &s2, &u2)
 	m.Eval()
-	m.Distinct("ScalarMult " + cls)
+	m.Distinct("ScalarMult " + dc)
 	if dstv != want {
 		wit["dst"] = mon.FullHex(dstv[:])
 		k := "scalarmult-wrong-dst:" + cls
+		if near {
+			k = "scalarmult-differs-from-ref:" + cls
+		}
 		if zero {
 			k = "scalarmult-dst-not-zeroed-for-low-order-point"
 		}
@@ -137,7 +149,7 @@ func (c *c11) judge(s, u [32]byte, cls, desc string) {
 	curve25519.ScalarMult(&x, &y, &x) // dst == point
 	m.Eval()
 	m.Count("inplace:ScalarMult dst==point", 1)
-	m.Distinct("ScalarMult dst==point " + cls)
+	m.Distinct("ScalarMult dst==point " + dc)
 	if x != want || y != s {
 		wit["dst"], wit["scalar_after"] = mon.FullHex(x[:]), mon.FullHex(y[:])
 		m.Violation("scalarmult-inplace-wrong:dst==point", wit)
@@ -146,7 +158,7 @@ func (c *c11) judge(s, u [32]byte, cls, desc string) {
 	curve25519.ScalarMult(&y, &y, &x) // dst == scalar
 	m.Eval()
 	m.Count("inplace:ScalarMult dst==scalar", 1)
-	m.Distinct("ScalarMult dst==scalar " + cls)
+	m.Distinct("ScalarMult dst==scalar " + dc)
 	if y != want || x != u {
 		wit["dst"], wit["point_after"] = mon.FullHex(y[:]), mon.FullHex(x[:])
 		m.Violation("scalarmult-inplace-wrong:dst==scalar", wit)
@@ -238,8 +250,8 @@ func (c *c11) self(x [32]byte, cls string) {
 func TestC11(t *testing.T) {
 	m := mon.New(t, "C11")
 	defer m.Done()
-	c := &c11{m}
-	m.Rule("streams: low-order = every encoding of a small-order u (0, 1, p-1, the two order-8 values, their +p aliases below 2^255, each with bit 255 clear/set: 14 strings) x 32 scalars covering all clamped-bit patterns; edge = u in {0..32, p-32..p-1, every non-canonical p..2^255-1} x bit 255 clear/set x scalars cycling the clamped bits; random = uniformly random 32-byte scalar and u, with ScalarBaseMult vs X25519(s, Basepoint) and a two-party DH. Oracle = RFC 7748 ladder over math/big (verif/ref/x25519big); witness libsodium crypto_scalarmult_curve25519 (incl. its -1 for all-zero output). In-place forms (ScalarMult dst==point, dst==scalar, scalar==point, all three one array; ScalarBaseMult dst==scalar; X25519 on slices sharing/overlapping one backing array; RFC 7748 §5.2 iteration run in place) expect the same RFC value. Every input is snapshotted and must be unchanged after the call unless it is the output. Judged: X25519 value or error IFF reference value is all zero; ScalarMult dst equals the reference value (all zero for low order, dst pre-filled with 0xA5); ScalarBaseMult == X25519(s,Basepoint) == reference; shared secrets equal. Distinct = (entry point, input class).")
+	c := &c11{m: m}
+	m.Rule("streams: low-order = every encoding of a small-order u (0, 1, p-1, the two order-8 values, their +p aliases below 2^255, each with bit 255 clear/set: 14 strings) x 32 scalars covering all clamped-bit patterns; edge = u in {0..32, p-32..p-1, every non-canonical p..2^255-1} x bit 255 clear/set x scalars cycling the clamped bits; random = uniformly random 32-byte scalar and u, with ScalarBaseMult vs X25519(s, Basepoint) and a two-party DH. Oracle = RFC 7748 ladder over math/big (verif/ref/x25519big); witness libsodium crypto_scalarmult_curve25519 (incl. its -1 for all-zero output). near-special = for each special encoding (9, 9|bit255, p+9, 0, 1, p-1, p, p+1, the order-8 values) every single-bit flip, every other value of byte 0 and of byte 31 and 18 random single-byte replacements, enumerated completely in both tiers. In-place forms (ScalarMult dst==point, dst==scalar, scalar==point, all three one array; ScalarBaseMult dst==scalar; X25519 on slices sharing/overlapping one backing array; RFC 7748 §5.2 iteration run in place) expect the same RFC value. Every input is snapshotted and must be unchanged after the call unless it is the output. Judged: X25519 value or error IFF reference value is all zero; ScalarMult dst equals the reference value (all zero for low order, dst pre-filled with 0xA5); ScalarBaseMult == X25519(s,Basepoint) == reference; shared secrets equal. Distinct = (entry point, input class).")
 	m.Assume("verif/ref/x25519big passes RFC 7748 §5.2 (both vectors, 1 and 1000 iterations) and §6.1; x/crypto/curve25519 wraps crypto/ecdh, so the standard library is the implementation under observation, not an oracle")
 	m.Note("inputs whose length is not 32: the documentation only says the slices are 32 bytes; outcomes are recorded in wrong_length:* counters and not judged, except that a nil error must come with a 32-byte result")
 
@@ -347,6 +359,75 @@ func TestC11(t *testing.T) {
 		}
 		if i < 3 {
 			m.Sample(map[string]any{"stream": "random", "a": mon.FullHex(a[:]), "A": mon.FullHex(pubA[:]), "u": mon.FullHex(u[:]), "shared": mon.FullHex(k1)})
+		}
+	})
+
+	// near-special u-coordinates: every single-bit flip, every replacement of
+	// byte 0 and of byte 31, and a few random single-byte replacements, of each
+	// special encoding (fast paths and special-case tests keyed on "is this the
+	// base point / a low-order point" must look at all 255 bits).
+	type special struct {
+		name string
+		enc  [32]byte
+	}
+	pPlus := func(k int64) [32]byte {
+		return x25519big.EncodeUraw(new(big.Int).Add(x25519big.P, big.NewInt(k)))
+	}
+	specials := []special{{"9", [32]byte{9}}, {"9|bit255", [32]byte{9, 31: 0x80}}, {"p+9", pPlus(9)},
+		{"0", [32]byte{}}, {"1", [32]byte{1}}, {"p-1", pPlus(-1)}, {"p", pPlus(0)}, {"p+1", pPlus(1)}}
+	for i, d := range lodesc {
+		if d == "ord8a" || d == "ord8b" || d == "ord8a|bit255" {
+			specials = append(specials, special{d, lo[i]})
+		}
+	}
+	const nRandByte = 18
+	const perSpecial = 256 + 255 + 255 + nRandByte
+	nNear := len(specials) * perSpecial
+	m.Cases("near-special", nNear, func(i int64, r *rand.Rand) {
+		sp := specials[int(i)/perSpecial]
+		j := int(i) % perSpecial
+		u := sp.enc
+		var mut, kind string
+		switch {
+		case j < 256:
+			u[j/8] ^= 1 << (j % 8)
+			mut, kind = fmt.Sprintf("bit%d", j), "bitflip"
+		case j < 256+255:
+			u[0] = sp.enc[0] + byte(j-256+1) // every other value of byte 0
+			mut, kind = "byte0", "byte0"
+		case j < 256+255+255:
+			u[31] = sp.enc[31] + byte(j-256-255+1) // every other value of byte 31
+			mut, kind = "byte31", "byte31"
+		default:
+			pos := 1 + r.IntN(30)
+			u[pos] = sp.enc[pos] + byte(1+r.IntN(255))
+			mut, kind = fmt.Sprintf("byte%d", pos), "random-byte"
+		}
+		s := scalarPattern(r, int(i)%32)
+		m.Count("near_special:"+sp.name, 1)
+		m.Count("near_special_kind:"+kind, 1)
+		c.dcls = "near-special:" + sp.name + ":" + kind
+		c.judge(s, u, "near-special:"+sp.name+":"+mut, "near "+sp.name+" ("+mut+")")
+		c.dcls = ""
+		// ScalarBaseMult vs X25519(·, Basepoint) vs X25519(·, fresh copy of 9), ref every 16th case
+		var pub [32]byte
+		curve25519.ScalarBaseMult(&pub, &s)
+		viaBase, e1 := curve25519.X25519(s[:], curve25519.Basepoint)
+		nine := make([]byte, 32)
+		nine[0] = 9
+		viaCopy, e2 := curve25519.X25519(s[:], nine)
+		m.Eval()
+		bad := e1 != nil || e2 != nil || !bytes.Equal(viaBase, pub[:]) || !bytes.Equal(viaCopy, pub[:])
+		if !bad && i%16 == 0 {
+			w := x25519big.X25519(&s, &x25519big.Base)
+			bad = w != pub
+			m.Count("near_special_basemult_ref_checked", 1)
+		}
+		if bad {
+			m.Violation("scalarbasemult-x25519-basepoint-disagree", map[string]any{"scalar": mon.FullHex(s[:]), "ScalarBaseMult": mon.FullHex(pub[:]), "X25519(Basepoint)": mon.FullHex(viaBase), "X25519(copy of 9)": mon.FullHex(viaCopy)})
+		}
+		if j == 248 && (sp.name == "9" || sp.name == "0") {
+			m.Sample(map[string]any{"stream": "near-special", "base": sp.name, "mutation": mut, "u": mon.FullHex(u[:])})
 		}
 	})
 
@@ -461,7 +542,13 @@ func TestC11(t *testing.T) {
 	m.Gate("edge_cases:noncanonical|bit255", 19*4, "u in p..2^255-1, bit 255 set")
 	m.Gate("edge_cases:canonical-edge|bit255", 65*4, "u near 0 / p with bit 255 set")
 	m.Gate("bit255_set_cases", 500, "bit 255 of u set")
-	nJudge := len(lo)*scalarsPerLow + len(eu)*reps + nRandom
+	nJudge := len(lo)*scalarsPerLow + len(eu)*reps + nRandom + nNear
+	for _, sp := range specials {
+		m.Gate("near_special:"+sp.name, perSpecial, "every single-bit flip and every byte-0/byte-31 replacement of special encoding "+sp.name)
+	}
+	m.Gate("near_special_kind:bitflip", 256*len(specials), "single-bit flips of the special encodings")
+	m.Gate("near_special_kind:byte31", 255*len(specials), "all other values of byte 31 of the special encodings")
+	m.Gate("near_special_kind:byte0", 255*len(specials), "all other values of byte 0 of the special encodings")
 	m.Gate("inplace:ScalarMult dst==point", nJudge*9/10, "ScalarMult with dst and point the same array (low-order, edge and random inputs)")
 	m.Gate("inplace:ScalarMult dst==scalar", nJudge*9/10, "ScalarMult with dst and scalar the same array")
 	m.Gate("inplace:X25519 shared backing array", nJudge*9/10, "X25519 with scalar and point in one backing array")
